@@ -108,7 +108,22 @@ def run_case(case):
         res["full"] = enc(canv.content())
         trims = case["trims"]
         if trims == "all":
-            trims = all_trims(W, H)
+            mw, mh = case.get("max_exh", (8, 6))
+            if W <= mw and H <= mh:
+                trims = all_trims(W, H)
+            else:  # too many: a seeded sample, boundary-biased
+                import random
+                rng = random.Random(case.get("rseed", 0))
+                w, h = image._size
+                xs = sorted({0, 1, (W - w) // 2, (W - w) // 2 + 1, W - w, W - w - 1, W - 1, W // 2} & set(range(W)))
+                ys = sorted({0, 1, (H - h) // 2, (H - h) // 2 + 1, H - h, H - h - 1, H - 1, H // 2} & set(range(H)))
+                trims = [[0, 0, None, None], [0, 0, W, H]]
+                for _ in range(case.get("n_random", 60)):
+                    tl = rng.choice(xs) if rng.random() < 0.5 else rng.randrange(W)
+                    tt = rng.choice(ys) if rng.random() < 0.5 else rng.randrange(H)
+                    cols = rng.choice([1, W - tl, rng.randint(1, W - tl), rng.randint(1, W - tl)])
+                    rows = rng.choice([1, H - tt, rng.randint(1, H - tt), rng.randint(1, H - tt)])
+                    trims.append([tl, tt, cols, rows])
         obs = []
         for tl, tt, cols, rows in trims:
             if case.get("via") == "composite" and cols is not None and rows is not None:
